@@ -19,6 +19,10 @@ pub fn part_name(slot: usize, p: u8) -> String {
     }
     if slot % 2 == 1 {
         format!("j{}b{}", slot - 1, PART_SUFFIX[p as usize])
+    } else if slot == 6 {
+        // an id may begin with '!' (only "!!!" inside an id is forbidden): `x!!!!j6` must still be
+        // read as the record of the dependency x -> !j6
+        format!("!j{}{}", slot, PART_SUFFIX[p as usize])
     } else {
         format!("j{}{}", slot, PART_SUFFIX[p as usize])
     }
@@ -69,6 +73,13 @@ pub struct World {
     /// a flaky ephemeral has been executed: behaviours are no longer a function of
     /// declared inputs, the semantic oracles do not apply any more
     pub tainted: bool,
+    /// output files deleted by the edits of the current step: they vanish *after* the graph has been
+    /// declared (between `add_node` and `event_startup`), so a presence question asked while the
+    /// graph is being declared still finds them
+    pub deleted_in_step: BTreeSet<String>,
+    /// slots whose id lists the outputs in reverse order (`b:::a` instead of `a:::b`): another name for
+    /// a job with the same outputs
+    pub reversed: BTreeSet<usize>,
     /// caches, rebuilt by `refresh` whenever the graph changes
     pub idmap: BTreeMap<String, usize>,
     pub cons: Vec<Vec<usize>>,
@@ -148,6 +159,8 @@ impl World {
             ledger: BTreeMap::new(),
             evalno: 0,
             tainted: false,
+            deleted_in_step: BTreeSet::new(),
+            reversed: BTreeSet::new(),
             idmap: BTreeMap::new(),
             cons: vec![],
             owner: BTreeMap::new(),
@@ -200,6 +213,9 @@ impl World {
     pub fn id(&self, s: usize) -> String {
         let mut v: Vec<String> = parts_of(self.parts(s)).map(|p| part_name(s, p)).collect();
         v.sort();
+        if self.reversed.contains(&s) {
+            v.reverse();
+        }
         v.join(":::")
     }
 
@@ -427,6 +443,11 @@ impl World {
                     }
                 }
             }
+            Edit::ToggleOrder(s) => {
+                if *s < n && !self.reversed.remove(s) {
+                    self.reversed.insert(*s);
+                }
+            }
             Edit::Bump(s) => {
                 if *s < n && self.kind(*s) == Kind::Always {
                     self.st[*s].salt += 1;
@@ -436,14 +457,16 @@ impl World {
                 if *s < n {
                     for p in parts_of(*m & 15) {
                         let pn = part_name(*s, p);
-                        self.disk.remove(&pn);
+                        if self.disk.remove(&pn).is_some() {
+                            self.deleted_in_step.insert(pn.clone());
+                        }
                         self.disk_writer.remove(&pn);
                     }
                 }
             }
         }
         match e {
-            Edit::ToggleJob(_) | Edit::ToggleDep { .. } | Edit::TogglePart(..) => self.refresh(),
+            Edit::ToggleJob(_) | Edit::ToggleDep { .. } | Edit::TogglePart(..) | Edit::ToggleOrder(_) => self.refresh(),
             _ => {}
         }
     }
